@@ -7,6 +7,7 @@ import (
 	"sort"
 	"strings"
 	"time"
+	"unicode/utf8"
 
 	"github.com/emersion/go-imap/v2"
 	"github.com/emersion/go-imap/v2/internal"
@@ -523,7 +524,7 @@ func writeEnvelope(enc *imapwire.Encoder, envelope *imap.Envelope) {
 		enc.String(envelope.Date.Format(envelopeDateLayout))
 	}
 	enc.SP()
-	writeNString(enc, mime.QEncoding.Encode("utf-8", envelope.Subject))
+	writeNString(enc, encodeHeaderText(envelope.Subject))
 	addrs := [][]imap.Address{
 		envelope.From,
 		sender,
@@ -560,13 +561,59 @@ func writeAddressList(enc *imapwire.Encoder, l []imap.Address) {
 	enc.List(len(l), func(i int) {
 		addr := l[i]
 		enc.Special('(')
-		writeNString(enc, mime.QEncoding.Encode("utf-8", addr.Name))
+		writeNString(enc, encodeHeaderText(addr.Name))
 		enc.SP().NIL().SP()
 		writeNString(enc, addr.Mailbox)
 		enc.SP()
 		writeNString(enc, addr.Host)
 		enc.Special(')')
 	})
+}
+
+// encodeHeaderText returns the form in which header text that clients decode
+// as RFC 2047 text (envelope subject, address display name) is sent.
+func encodeHeaderText(s string) string {
+	if enc := mime.QEncoding.Encode("utf-8", s); enc != s {
+		return enc
+	}
+	return hideEncodedWords(s)
+}
+
+// hideEncodedWords makes sure that a client which decodes the RFC 2047
+// encoded-words of s gets s back: text which contains the start of an
+// encoded-word ("=?") is itself sent as a sequence of encoded-words.
+func hideEncodedWords(s string) string {
+	if !strings.Contains(s, "=?") {
+		return s
+	}
+
+	const maxContentLen = 75 - len("=?utf-8?q?") - len("?=")
+	var sb strings.Builder
+	contentLen := 0
+	for i := 0; i < len(s); {
+		// Multi-byte characters must not be split across encoded-words
+		_, size := utf8.DecodeRuneInString(s[i:])
+		var content []byte
+		for _, b := range []byte(s[i : i+size]) {
+			if (b >= '0' && b <= '9') || (b >= 'A' && b <= 'Z') || (b >= 'a' && b <= 'z') {
+				content = append(content, b)
+			} else {
+				content = append(content, fmt.Sprintf("=%02X", b)...)
+			}
+		}
+		if contentLen == 0 || contentLen+len(content) > maxContentLen {
+			if contentLen > 0 {
+				sb.WriteString("?= ")
+			}
+			sb.WriteString("=?utf-8?q?")
+			contentLen = 0
+		}
+		sb.Write(content)
+		contentLen += len(content)
+		i += size
+	}
+	sb.WriteString("?=")
+	return sb.String()
 }
 
 func writeNString(enc *imapwire.Encoder, s string) {
@@ -608,7 +655,7 @@ func writeBodyType1part(enc *imapwire.Encoder, bs *imap.BodyStructureSinglePart,
 	enc.SP()
 	writeNString(enc, bs.ID)
 	enc.SP()
-	writeNString(enc, bs.Description)
+	writeNString(enc, hideEncodedWords(bs.Description))
 	enc.SP()
 	if bs.Encoding == "" {
 		enc.String("7BIT")
@@ -685,7 +732,7 @@ func writeBodyFldParam(enc *imapwire.Encoder, params map[string]string) {
 	enc.List(len(l), func(i int) {
 		k := l[i]
 		v := params[k]
-		enc.String(k).SP().String(v)
+		enc.String(k).SP().String(hideEncodedWords(v))
 	})
 }
 
